@@ -2,11 +2,14 @@
 """Apply textual mutants (old -> new) to /repo files one at a time, run the
 given property checks through govc, report whether each mutant is detected.
 Usage: mutate.py <mutants.json> ;  entries: {"file":..., "old":..., "new":..., "props":[...], "expect":"detect"|"harmless"}"""
-import json, subprocess, sys, os
+import json, subprocess, sys, os, re, shutil
 muts = json.load(open(sys.argv[1]))
 only = sys.argv[2] if len(sys.argv) > 2 else None
 env = dict(os.environ, GOFLAGS="-mod=mod", GOPROXY="off", GOSUMDB="off", GOTOOLCHAIN="local")
 bad = 0
+# the checks rewrite evidence files: keep the clean-tree evidence
+shutil.rmtree("/tmp/evidence_backup", ignore_errors=True)
+shutil.copytree("/verif/evidence", "/tmp/evidence_backup")
 for i, m in enumerate(muts):
     if only and only not in m.get("name", ""):
         continue
@@ -20,8 +23,9 @@ for i, m in enumerate(muts):
     try:
         res = []
         for p in m["props"]:
-            r = subprocess.run(["/verif/govc/govc", "check", "-prop", p, "-result", "/tmp/mut_r.json"], env=env, capture_output=True, text=True)
-            failed = [l for l in r.stdout.splitlines() if l.startswith("FAILED") or l.startswith("ERROR")]
+            r = subprocess.run(["/verif/bin/check", p], env=env, capture_output=True, text=True)
+            failed = [l for l in r.stdout.splitlines() if l.startswith("VIOLATION")]
+            failed = [re.sub(r"replay=\S+ ", "", l) for l in failed]
             res.append((p, r.returncode, failed))
         detected = any(rc != 0 for _, rc, _ in res)
         exp = m.get("expect", "detect")
@@ -31,4 +35,7 @@ for i, m in enumerate(muts):
         print("%s MUTANT %d %s: %s" % ("ok  " if ok else "MISS", i, m.get("name", ""), "; ".join("%s rc=%d %s" % (p, rc, (f[0][:140] if f else "")) for p, rc, f in res)))
     finally:
         open(path, "w").write(src)
+shutil.rmtree("/verif/evidence")
+shutil.copytree("/tmp/evidence_backup", "/verif/evidence")
+shutil.rmtree("/verif/replays", ignore_errors=True)
 sys.exit(1 if bad else 0)
